@@ -9,6 +9,8 @@ THEOREMS = [_NS + n for n in [
     "app_phase_exact_13",
     "handshake13_exports_nothing",
     "tls13_after_finished_exact",
+    "legacy_finished_record",
+    "legacy_after_hello_exact",
     "app_export_exact",
     # B. connection level
     "connOut_eq",
@@ -16,4 +18,8 @@ THEOREMS = [_NS + n for n in [
     "connOut_none_iff_build_none",
     "connOut_meta_only_adds",
     "connOut_take_prefix",
+    # C. handshake
+    "server_hello_installs",
+    "genKeys_installs_rel_legacy",
+    "genKeys_installs_rel_13",
 ]]
